@@ -58,9 +58,27 @@ open SoupVerif
 #print axioms C17.default_def_wellformed
 #print axioms C17.scan_aux
 #print axioms C17.firstSubmit_cons
+#print axioms C17.firstSubmit_guarded
 #print axioms C17.scanIsSubmit_eq_typeIs
 #print axioms C17.indeterminate_def
 #print axioms C17.matchIndeterminate_def
+-- the scan of `match_indeterminate` in the guard's vocabulary (fix 01d00ae: the `type` value is compared as `[type=radio]` compares it)
+#print axioms C17.radioCheckedScan_step
+#print axioms C17.scanStep_eq
+#print axioms C17.radioCheckedScan_eq
+#print axioms C17.mav_bare_all
+#print axioms C17.scanKey_eq_nameEq
+#print axioms C17.typeIs_radio_eq_any
+#print axioms C17.hasAttr_eq_any_key
+#print axioms C17.valIsRadio_eq_guard
+#print axioms C17.scanRadioAttr_imp_guard
+#print axioms C17.scanRadioAttr_eq_guard
+#print axioms C17.scanRadio_imp_typeIs
+#print axioms C17.scanRadio_eq_typeIs
+#print axioms C17.checkedRadio_is_guard_radio
+#print axioms C17.radioCheckedScan_def
+#print axioms C17.scanMember_guarded
+#print axioms C17.scanMember_is_checked
 #print axioms C17.disabledParent_eq
 #print axioms C17.belowDisabledFieldsetNotLegend_eq
 #print axioms C17.disabled_def
